@@ -21,6 +21,7 @@ type VStore struct {
 	data         map[string][]byte
 	RmMissingErr bool
 	Log          []Mutation // mutations in program order
+	MutOps       []int      // operation count at each mutation (attempted writes / removes, also failed ones)
 	ops          int        // count of all operations (read, write, remove)
 	FailAt       int        // 1-based index of the operation that returns ErrInjected; 0 = never
 	Failed       bool
@@ -86,6 +87,7 @@ func (s *VStore) Write(ctx context.Context, key string, body []byte, options *st
 		s.mu.Lock()
 	}
 	defer s.mu.Unlock()
+	s.MutOps = append(s.MutOps, s.ops+1)
 	if err := s.tick(); err != nil {
 		return err
 	}
@@ -114,6 +116,7 @@ func (s *VStore) Read(ctx context.Context, key string) ([]byte, error) {
 func (s *VStore) Remove(ctx context.Context, key string) error {
 	s.mu.Lock()
 	defer s.mu.Unlock()
+	s.MutOps = append(s.MutOps, s.ops+1)
 	if err := s.tick(); err != nil {
 		return err
 	}
